@@ -3,6 +3,7 @@ CONSTANT DeadlineOnProcessClock = FALSE
 CONSTANT AgeLimit = 2
 CONSTANT MaxAge = 0
 CONSTANT ModelReused = TRUE
+CONSTANT TreeKinds = 8
 CONSTANT MaxLen = 3
 SPECIFICATION Spec
 INVARIANT TypeOK
